@@ -16,3 +16,4 @@ finally:
     print(ex.stats)
     print(ex.reach_counts)
     for f in ex.findings[:10]: print(f)
+    import shutil; shutil.rmtree(sc, True)
